@@ -240,6 +240,12 @@ package car
 //@   let v1s, idx, v1err := call[traversalCar.WriteV1#0]
 //@   call[index.WriteTo#0] assert index_last [C15]: ref(arg0) == ref(idx) && ref(arg1) == ref(w)
 //@   check count_sums_parts [C15]: err == nil && tc.opts.IndexCodec == 3145728 ==> n == wrap_s64(hn + wrap_s64(v1s))
+//@   let pn, perr := call[Writer.Write#0]
+//@   let in, ierr := call[index.WriteTo#0]
+//@   check count_includes_index_padding [C15]: err == nil && tc.opts.IndexCodec != 3145728 && tc.opts.IndexPadding > 0 ==> n == wrap_s64(wrap_s64(wrap_s64(hn + wrap_s64(v1s)) + pn) + wrap_s64(in))
+//@   check count_includes_index [C15]: err == nil && tc.opts.IndexCodec != 3145728 && tc.opts.IndexPadding == 0 ==> n == wrap_s64(wrap_s64(hn + wrap_s64(v1s)) + wrap_s64(in))
+//@   check count_on_error_is_the_running_sum [C15]: herr != nil ==> n == hn
+//@   call[Writer.Write#0] assert padding_is_zeros_of_configured_length [C15]: len(arg1) == tc.opts.IndexPadding && ref(arg0) == ref(w)
 
 //@ func TraverseToFile
 //@   let wn0, werr := call[traversalCar.WriteTo#0]
@@ -341,6 +347,7 @@ package car
 //@   end
 
 //@ func ApplyOptions
+//@   check applies_every_option [C04,C05,C09]: rangeindex == len(opt)
 //@   ensures codec_default [C05,C11]: result.IndexCodec != 0
 //@   ensures cid_size_default [C04]: result.MaxIndexCidSize != 0
 //@   loop[0] invariant untouched_without_options [C04,C05,C09]: len(opt) == 0 ==> cur(opts).MaxAllowedHeaderSize == 33554432 && cur(opts).MaxAllowedSectionSize == 8388608 && cur(opts).IndexCodec == 0 && cur(opts).MaxIndexCidSize == 0 && cur(opts).DataPadding == 0 && cur(opts).IndexPadding == 0 && !cur(opts).StoreIdentityCIDs && !cur(opts).BlockstoreUseWholeCIDs && !cur(opts).BlockstoreAllowDuplicatePuts && !cur(opts).WriteAsCarV1 && !cur(opts).ZeroLengthSectionAsEOF && !cur(opts).TrustedCAR
